@@ -5,7 +5,7 @@ Local Open Scope Z_scope.
 
 (* the observer's bookkeeping agrees with the notification's state *)
 Definition NfInv (c : nf_cfg) (s : nf_state) (g : nf_ghost) : Prop :=
-  g_all g = nf_npu s /\ g_last g = nf_lns s /\
+  g_inc g = nf_npu s /\ g_last g = nf_lns s /\
   (g_ps g = true -> g_bad g = false -> nfc_interval c <= 0 -> nf_nomore s = true) /\
   (forall t, g_rem g = Some t -> t <= g_tm g /\ (0 < nfc_interval c -> t + nfc_interval c <= nf_next s)) /\
   Forall (fun h => sh_reminder h = false) (nf_stash s).
@@ -134,7 +134,7 @@ Definition NfInvB (s : nf_state) (g : nf_ghost) : Prop :=
   Forall (fun h => sh_reminder h = false) (nf_stash s) /\
   NfMasked c oi g /\ g_tm g = oi_now oi.
 
-Lemma NfInvB_intro s g : g_all g = nf_npu s -> NfInvB s g -> NfInvM c oi s g.
+Lemma NfInvB_intro s g : g_inc g = nf_npu s -> NfInvB s g -> NfInvM c oi s g.
 Proof. intros A (B & C & D & E & M & T). split; [|split; assumption]. split; [assumption|]. repeat split; auto; apply D; assumption. Qed.
 
 Lemma nf_prologue_inv ty s g : NfInvM c oi s g -> NfInvB (nf_s0 ty s) (nf_g0 ty g).
@@ -142,7 +142,7 @@ Proof.
   intros ((A & B & C & D & E) & M & T). unfold NfInvB, nf_s0, nf_g0.
   destruct (nf_type_eqb ty NfRecovery).
   - unfold nf_g_ev, nf_g_mask, NfMasked. destruct (nf_may_defer c oi) eqn:Md;
-      cbn [g_all g_pall g_inc g_pre g_last g_ps g_bad g_rem g_tm nf_mkg nf_lns nf_nomore nf_next nf_stash nf_set_lns].
+      cbn [g_inc g_pre g_last g_ps g_bad g_rem g_tm nf_mkg nf_lns nf_nomore nf_next nf_stash nf_set_lns].
     + split; [reflexivity|]. split; [intros; discriminate|]. split; [intros; discriminate|].
       split; [exact E|]. split; [intros _; split; reflexivity|exact T].
     + split; [reflexivity|]. split; [intros; discriminate|]. split; [exact D|].
@@ -151,14 +151,14 @@ Proof.
 Qed.
 
 Lemma nf_prologue_incset ty g :
-  (if nf_type_eqb ty NfRecovery then g_pall (nf_g0 ty g) else g_all (nf_g0 ty g)) = g_all g.
+  (if nf_type_eqb ty NfRecovery then g_pre (nf_g0 ty g) else g_inc (nf_g0 ty g)) = g_inc g.
 Proof.
   unfold nf_g0, nf_g_ev, nf_g_mask. destruct (nf_type_eqb ty NfRecovery); [|reflexivity].
   destruct (nf_may_defer c oi); reflexivity.
 Qed.
 
 Lemma nf_prologue_inc ty g :
-  g_all (nf_g0 ty g) = if nf_type_eqb ty NfRecovery then (if nf_rec_deferred oi then g_all g else []) else g_all g.
+  g_inc (nf_g0 ty g) = if nf_type_eqb ty NfRecovery then (if nf_rec_deferred oi then g_inc g else []) else g_inc g.
 Proof.
   unfold nf_g0, nf_g_ev, nf_g_mask. destruct (nf_type_eqb ty NfRecovery); [|reflexivity].
   destruct (nf_may_defer c oi); reflexivity.
@@ -199,7 +199,7 @@ Proof.
   pose proof (nf_prologue_inv ty s g HI) as HI0.
   pose proof (nf_prologue_incset ty g) as HIS.
   pose proof (nf_prologue_inc ty g) as HInc.
-  assert (g_all g = nf_npu s) as HA by (destruct HI as ((A & _) & _); exact A).
+  assert (g_inc g = nf_npu s) as HA by (destruct HI as ((A & _) & _); exact A).
   unfold nf_begin in HB. fold (nf_s0 ty s) in HB.
   assert (nf_stash (nf_s0 ty s) = nf_stash s /\ nf_sup (nf_s0 ty s) = nf_sup s /\ nf_npu (nf_s0 ty s) = nf_npu s
           /\ nf_nomore (nf_s0 ty s) = nf_nomore s /\ nf_next (nf_s0 ty s) = nf_next s) as (S0st & S0sup & S0npu & S0nm & S0nx).
@@ -237,7 +237,7 @@ Proof.
       assert (forall u, In u sent -> exists ur, In ur (cx_users x) /\ nfu_id ur = u /\ nfu_enable ur = true /\
                 (nf_mayforce oi ty || nf_full_ok c now x ty ur) = true /\
                 ((ty = NfRecovery \/ ty = NfAck) ->
-                   nf_mem u (if nf_type_eqb ty NfRecovery then g_pall g0 else g_all g0) = true \/ nf_passes (nfu_types ur) 32 = false)) as Hsent.
+                   nf_mem u (if nf_type_eqb ty NfRecovery then g_pre g0 else g_inc g0) = true \/ nf_passes (nfu_types ur) 32 = false)) as Hsent.
       { intros u Hu. pose proof (nf_loop_sent c x ty force rem (cx_users x) (nf_npu s0) (nf_lns s0) u) as Hl.
         rewrite L in Hl. destruct (Hl Hu) as (ur & I1 & I2 & I3 & I4 & I5).
         exists ur. repeat split; auto.
@@ -254,13 +254,13 @@ Proof.
       { intros Ep Ht Hv. apply forallb_forall. intros u Hu. apply nf_type_eqb_eq in Ep.
         pose proof (nf_loop_nodup c x ty force rem (cx_users x) (nf_npu s0) (nf_lns s0) u Ep (proj1 (HSr Ht)) Hv) as Hl.
         rewrite L in Hl. rewrite B0, (Hl Hu). reflexivity. }
-      assert (forallb (nf_okBall c oi g0 ty) sent = true \/
+      assert (forallb (nf_okB c oi g0 ty) sent = true \/
               (nf_type_eqb ty NfRecovery || nf_type_eqb ty NfAck) = false) as K2.
       { destruct (nf_type_eqb ty NfRecovery || nf_type_eqb ty NfAck) eqn:Era; [left|right; reflexivity].
         assert (ty = NfRecovery \/ ty = NfAck) as Hra.
         { apply orb_true_iff in Era. destruct Era as [Er|Er]; apply nf_type_eqb_eq in Er; auto. }
         apply forallb_forall. intros u Hu. destruct (Hsent u Hu) as (ur & I1 & I2 & I3 & I4 & I5).
-        unfold nf_okBall. apply existsb_exists. exists ur. split; [assumption|].
+        unfold nf_okB. apply existsb_exists. exists ur. split; [assumption|].
         fold x now. rewrite I3, I4. subst u. rewrite Z.eqb_refl. cbn [andb].
         destruct (I5 Hra) as [Mm|Ns]; [rewrite Mm; reflexivity|rewrite Ns; apply orb_true_r]. }
       assert (oi_tick oi && (cx_paused x && cx_ha x) = false) as K7.
@@ -290,7 +290,7 @@ Proof.
            rewrite (K3 eq_refl eq_refl eq_refl). reflexivity.
       * cbn [andb].
         destruct K2 as [K2|K2].
-        -- destruct (_ && negb (forallb (nf_okB c oi g0 ty) sent)); [rewrite K2; reflexivity|reflexivity].
+        -- rewrite K2. rewrite andb_false_r. reflexivity.
         -- rewrite K2. reflexivity.
     + (* the invariant *)
       unfold nf_g_ev. apply nf_mask_inv.
@@ -299,7 +299,7 @@ Proof.
       destruct (nf_type_eqb ty NfProblem) eqn:Ep.
       * assert (nf_type_eqb ty NfRecovery = false) as Er by (apply nf_type_eqb_eq in Ep; subst ty; reflexivity).
         rewrite Er in HInc. rewrite Er. rewrite Lsnd. cbn [fst snd].
-        repeat split; cbn [g_all g_pall g_inc g_last g_ps g_bad g_rem g_tm nf_mkg nf_npu nf_lns nf_nomore nf_next nf_stash].
+        repeat split; cbn [g_inc g_last g_ps g_bad g_rem g_tm nf_mkg nf_npu nf_lns nf_nomore nf_next nf_stash].
         -- rewrite HInc, HA, <- S0npu. reflexivity.
         -- rewrite B0. reflexivity.
         -- intros _ _ Hi. assert (nfc_interval c <=? 0 = true) as Ei by lia. rewrite Ei. reflexivity.
@@ -310,16 +310,16 @@ Proof.
         destruct (nf_type_eqb ty NfRecovery) eqn:Er.
         -- assert (nf_lns s0 = []) as Hl0 by (unfold s0, nf_s0; rewrite Er; reflexivity).
            repeat split; cbn; try rewrite Hl0; auto; try (intros; discriminate); apply D0; assumption.
-        -- assert (g_all g0 = nf_npu s0) as HA0 by (rewrite HInc, HA, <- S0npu; reflexivity).
+        -- assert (g_inc g0 = nf_npu s0) as HA0 by (rewrite HInc, HA, <- S0npu; reflexivity).
            destruct (nf_type_eqb ty NfCustom) eqn:Ecu.
-           ++ repeat split; cbn [g_all g_pall g_inc g_last g_ps g_bad g_rem g_tm nf_mkg nf_npu nf_lns nf_nomore nf_next nf_stash negb]; auto;
+           ++ repeat split; cbn [g_inc g_last g_ps g_bad g_rem g_tm nf_mkg nf_npu nf_lns nf_nomore nf_next nf_stash negb]; auto;
               apply D0; assumption.
-           ++ repeat split; cbn [g_all g_pall g_inc g_last g_ps g_bad g_rem g_tm nf_mkg nf_npu nf_lns nf_nomore nf_next nf_stash negb]; auto;
+           ++ repeat split; cbn [g_inc g_last g_ps g_bad g_rem g_tm nf_mkg nf_npu nf_lns nf_nomore nf_next nf_stash negb]; auto;
               try discriminate; apply D0; assumption.
   - (* period closed *)
     inversion HB; subst s' e; clear HB.
     destruct (nf_pre_period _ _ _ _ _ G) as [Pc Pf].
-    assert (g_all g0 = nf_npu s0) as HA0.
+    assert (g_inc g0 = nf_npu s0) as HA0.
     { rewrite HInc, HA, <- S0npu. destruct (nf_type_eqb ty NfRecovery) eqn:Er; [|reflexivity].
       assert (nf_rec_deferred oi = true) as Dd.
       { unfold nf_rec_deferred. fold x. rewrite Pc. cbn [andb].
@@ -353,7 +353,7 @@ Proof.
     + rewrite Mrem in H. discriminate.
   - (* after times.end *)
     inversion HB; subst s' e; clear HB.
-    assert (g_all g0 = nf_npu s0) as HA0.
+    assert (g_inc g0 = nf_npu s0) as HA0.
     { rewrite HInc, HA, <- S0npu.
       assert (nf_type_eqb ty NfProblem = true) as Ep by (apply (nf_pre_problem_gate c now x ty force); auto).
       apply nf_type_eqb_eq in Ep. subst ty. reflexivity. }
@@ -374,7 +374,7 @@ Proof.
     { unfold s1. destruct (nf_type_eqb ty NfRecovery && (nfc_interval c <=? 0)); repeat split. }
     assert (NfInvM c oi (if nf_type_eqb ty NfRecovery then nf_set_npu s1 [] else s1) g0) as H1.
     { destruct (nf_type_eqb ty NfRecovery) eqn:Er.
-      - assert (g_all g0 = []) as Hg.
+      - assert (g_inc g0 = []) as Hg.
         { rewrite HInc. unfold nf_rec_deferred. fold x. rewrite Po. reflexivity. }
         destruct HB1 as (B0 & C0 & D0 & E0 & M0 & T0). split; [|split; assumption].
         split; [exact Hg|]. repeat split; auto; apply D0; assumption.
@@ -385,7 +385,7 @@ Proof.
     intros _. destruct (nf_type_eqb ty NfRecovery); cbn [nf_sup nf_set_npu]; rewrite S1b, S0sup; auto.
   - (* notification state filter *)
     inversion HB; subst s' e; clear HB.
-    assert (g_all g0 = nf_npu s0) as HA0.
+    assert (g_inc g0 = nf_npu s0) as HA0.
     { rewrite HInc, HA, <- S0npu.
       assert (nf_type_eqb ty NfProblem = true) as Ep by (apply (nf_pre_problem_gate c now x ty force); auto).
       apply nf_type_eqb_eq in Ep. subst ty. reflexivity. }
